@@ -628,7 +628,8 @@ class BaseWorkplace(object, metaclass=abc.ABCMeta):
                     self.placed_component_id_record.insert(
                         step_time, self.placed_component_id_record[step_time - 1]
                     )
-            self.cost_list.insert(step_time, 0.0)
+            if step_time < len(self.cost_list):
+                self.cost_list.insert(step_time, 0.0)
 
     def print_log(self, target_step_time):
         """
